@@ -254,6 +254,8 @@ func init() {
 	witness("witness-commitment-wrong", ClsBlock, "wrong")
 	witness("witness-without-commitment", ClsBlock, "none")
 	witness("witness-nonce-31-bytes", ClsBlock, "nonce31")
+	witness("witness-two-commitments-last-good", ClsValid, "two-last-good")
+	witness("witness-two-commitments-last-bad", ClsBlock, "two-last-bad")
 
 	// ---- connect class -----------------------------------------------
 	reg(&mutation{name: "coinbase-value-plus-1", class: ClsConnect, pre: func(bp *blockPlan) bool { bp.cbDelta = 1; return true }})
@@ -369,6 +371,40 @@ func init() {
 			return false
 		}})
 	}
+	// BIP68 relative time lock: n units of 512 s counted from the median time
+	// past of the block BEFORE the one that confirmed the input (on this
+	// block's own branch); met when that plus n*512 is at most the median
+	// time past of the spending block's parent.
+	timelock := func(name, class string, off int64) {
+		reg(&mutation{name: name, class: class, txs: func(bp *blockPlan) bool {
+			if !bp.csv {
+				return false
+			}
+			cands := bp.candidates()
+			if bp.w.C.Bool(600, "timelock-newest-first") {
+				// prefer an input confirmed recently (on this very branch)
+				for i, j := 0, len(cands)-1; i < j; i, j = i+1, j-1 {
+					cands[i], cands[j] = cands[j], cands[i]
+				}
+			}
+			for _, op := range cands {
+				rec, ok := bp.view[op]
+				if !ok || rec.Blk == nil || rec.Blk.Parent == nil {
+					continue
+				}
+				delta := bp.parent.mtp() - rec.Blk.Parent.mtp()
+				n := delta/512 + off
+				if delta < 0 || n < 0 || n > 0xffff {
+					continue
+				}
+				bp.simpleSpend(op, rec, 0, func(p *txPlan) { p.Version = 2; p.Ins[0].Seq = 1<<22 | uint32(n) })
+				return true
+			}
+			return false
+		}})
+	}
+	timelock("bip68-time-lock-unmet", ClsConnect, 1)
+	timelock("bip68-time-lock-met", ClsValid, 0)
 	seqlock("bip68-height-lock-unmet", ClsConnect, 1)
 	seqlock("bip68-height-lock-met", ClsValid, 0)
 	// the version field is an unsigned 32-bit number for BIP68: versions with
